@@ -43,6 +43,7 @@ type remapClusterCase struct {
 type remapPartFail struct {
 	FailCreateEvery int64          `json:"engine_rejects_every_nth_create"`
 	Fault           *sim.FaultPlan `json:"fault,omitempty"`
+	SlowGiveBack    bool           `json:"give_back_delayed_by_30ms,omitempty"`
 }
 
 func engineCPU(p resourcetypes.Resources) (cores string, remap bool, ok bool) {
@@ -232,10 +233,18 @@ func c32Cluster(t *testing.T, env *vkit.Env, rec *vkit.Rec, replay *remapCluster
 				if pf.Fault != nil {
 					cp := *pf.Fault
 					plan = &cp
+				} else if pf.SlowGiveBack {
+					// the give-back is slow: the remap the deployment itself scheduled runs before it
+					w.b.OnCall = func(ev sim.Event) {
+						if ev.Layer == "rmgr" && ev.Op == "RollbackAlloc" {
+							time.Sleep(30 * time.Millisecond)
+						}
+					}
 				}
 			}
 			res := w.exec(op, plan)
 			if pfHost != nil {
+				w.b.OnCall = nil
 				atomic.StoreInt64(&pfHost.FailCreateEvery, 0)
 				okN, failN := 0, 0
 				for _, p := range res.Parts {
@@ -249,6 +258,9 @@ func c32Cluster(t *testing.T, env *vkit.Env, rec *vkit.Rec, replay *remapCluster
 					rec.Count("cluster/partly_failed_deployments", 1)
 					if plan.Fired() {
 						rec.Count("cluster/partly_failed_deployments_whose_give_back_failed", 1)
+					}
+					if pf.SlowGiveBack {
+						rec.Count("cluster/partly_failed_deployments_whose_give_back_was_slow", 1)
 					}
 				}
 			}
@@ -310,8 +322,11 @@ func c32Cluster(t *testing.T, env *vkit.Env, rec *vkit.Rec, replay *remapCluster
 					cs.PartFail = map[int]*remapPartFail{}
 				}
 				pf := &remapPartFail{FailCreateEvery: 2}
-				if r.Intn(2) == 0 {
+				switch r.Intn(3) {
+				case 0:
 					pf.Fault = &sim.FaultPlan{Kind: "fail", Match: "rmgr.RollbackAlloc", Index: 1}
+				case 1:
+					pf.SlowGiveBack = true
 				}
 				cs.PartFail[len(cs.Ops)] = pf
 				cs.Ops = append(cs.Ops, sim.Op{Kind: "create", App: "app", Entry: "web", Pod: node.Pod, Strategy: "AUTO", Count: 2 + r.Intn(2), Includes: []string{node.Name},
